@@ -19,8 +19,8 @@ RULE = ("generated directory trees (names with spaces, dots, non-ASCII); all ord
 ASSUMPTIONS = ["Path.resolve() and symlinks are outside the model (paths are generated already resolved)",
                "POSIX path semantics"]
 
-NAMES = ["a", "b", "sub", "x y", "d.ir", "é", "v1", "v1.2", "data", "inc", "deep", "run", "run2", "run 2", "a b"]
-FILES = ["f", "g.dict", "h", "my file", "p.q.r", "k"]
+NAMES = ["a", "b", "sub", "x y", "d.ir", "é", "v1", "v1.2", "data", "inc", "deep", "run", "run2", "run 2", "a b", "include", "my includes.d", "#include"]
+FILES = ["f", "g.dict", "h", "my file", "p.q.r", "k", "includeDict", "x.include"]
 
 
 def _dirs(rng, n):
@@ -238,7 +238,8 @@ def run(ctx: Ctx) -> None:
     placements = [("prefix_sibling", ["w", "run"], ["w", "run2"]), ("prefix_sibling_dot", ["w", "v1"], ["w", "v1.2", "in"]),
                   ("same", ["w"], ["w"]), ("child", ["w"], ["w", "sub"]), ("parent", ["w", "sub"], ["w"]),
                   ("sibling", ["w", "s1"], ["w", "s2"]), ("cousin", ["w", "s1", "t1"], ["w", "s2", "t2"]),
-                  ("grandchild", ["w"], ["w", "x y", "d.ir"]), ("spaces", ["w", "x y"], ["w", "my dir", "é"])]
+                  ("grandchild", ["w"], ["w", "x y", "d.ir"]), ("spaces", ["w", "x y"], ["w", "my dir", "é"]),
+                  ("keyword_child", ["w"], ["w", "include"]), ("keyword_cousin", ["w", "s1"], ["w", "my includes.d", "v2"])]
     for _ in range(ctx.n(6, 60)):
         for rel, ad, bd in placements:
             an = rng.choice(["a", "a.dict", "my a", "paramDict"])
